@@ -184,9 +184,10 @@ Proof.
 Qed.
 
 (* Text index: Some exactly on 1..len, and then the i-th code point. cap >= len + 1 is C12's
-   well-formedness (cap = bytes + 1 and every code point has >= 1 byte). *)
+   well-formedness (cap = bytes + 1 and every code point has >= 1 byte); the empty Text is {NULL,0} or an
+   owned "\\0" of capacity 1 (Props/C12.v, C12_two_empty_texts), hence 0 <= cap <= 1 for it. *)
 Lemma text_index_domain cap cps i :
-  (cps <> [] -> Z.of_nat (length cps) + 1 <= cap) -> (cps = [] -> cap = 0) ->
+  (cps <> [] -> Z.of_nat (length cps) + 1 <= cap) -> (cps = [] -> 0 <= cap <= 1) ->
   ((exists c, text_index cap cps i = Some c) <-> 1 <= i <= Z.of_nat (length cps)).
 Proof.
   intros Hcap Hemp. unfold text_index.
@@ -210,7 +211,7 @@ Proof.
 Qed.
 
 Lemma text_replace_domain cap cps i c :
-  (cps <> [] -> Z.of_nat (length cps) + 1 <= cap) -> (cps = [] -> cap = 0) ->
+  (cps <> [] -> Z.of_nat (length cps) + 1 <= cap) -> (cps = [] -> 0 <= cap <= 1) ->
   ((exists r, text_replace cap cps i c = Some r) <-> 1 <= i <= Z.of_nat (length cps)).
 Proof.
   intros Hcap Hemp. unfold text_replace.
